@@ -14,6 +14,7 @@ From Verif Require Import Lib.Bytes Ident.Chars Ident.ServerName Ident.Ids Ident
 From Verif Require Import Ident.Base64Proofs Ident.LimitsProofs Ident.GrammarProofs Ident.Ipv6Proofs
   Ident.DepartureProofs.
 From Verif Require Import Gen.GenVersions Gen.GenConsts.
+From Verif Require Import Ident.LimitsSpec Ident.LimitsSpecProofs.
 Open Scope N_scope.
 
 (* ---------------- identifiers ---------------- *)
@@ -185,6 +186,30 @@ Proof.
   - apply table_ok; assumption.
 Qed.
 
+(* the same as ONE equation against the specification of the property text (LimitsSpec: refused when
+   the JSON exceeds 65 536 bytes or a limited field exceeds 255 code points, persistable when only
+   the byte limit is exceeded - no order of checks in it), for limited fields that are well-formed
+   UTF-8, where the library's RuneCountInString is the number of code points *)
+Theorem event_size_verdict_is_spec_class struct v json_len type sk sender room :
+  ((struct =? 3) = false /\ shaped 33 room
+   \/ (struct =? 3) = true /\ is_create_v3 type sk = false /\ exists r, room = 33 :: r) ->
+  lenient_version v = true -> bytes_eqb v pseudo_id_version = false ->
+  shaped 64 sender -> room_valid room = true ->
+  wf_utf8 type = true -> opt_wf sk -> wf_utf8 sender = true -> wf_utf8 room = true ->
+  event_checks struct v false json_len type sk sender room
+  = verdict_of_class (size_class_of json_len (limited_fields type sk sender room)).
+Proof. apply event_checks_is_size_class. Qed.
+
+Theorem rune_count_is_code_points_on_utf8 s : wf_utf8 s = true -> rune_count s = code_points s.
+Proof. exact (rune_count_code_points s). Qed.
+
+Example wf_utf8_inhabited :
+  wf_utf8 (bs "m.room.message") = true
+  /\ wf_utf8 (33 :: concat (repeat [195; 169] 130) ++ bs ":x") = true
+  /\ wf_utf8 [240; 159; 152; 128; 226; 130; 172] = true
+  /\ wf_utf8 [195] = false /\ wf_utf8 [128] = false /\ wf_utf8 [237; 160; 128] = false.
+Proof. repeat split; vm_compute; reflexivity. Qed.
+
 Example check_fields_table_room_premise_satisfiable :
   shaped 33 (bs "!r:x") /\ room_valid (bs "!r:x") = true.
 Proof. split; [split; [reflexivity|eexists; reflexivity]|vm_compute; reflexivity]. Qed.
@@ -286,6 +311,8 @@ Print Assumptions code_points_at_most_bytes.
 Print Assumptions check_fields_hard_limits.
 Print Assumptions check_id_table.
 Print Assumptions check_fields_table.
+Print Assumptions event_size_verdict_is_spec_class.
+Print Assumptions rune_count_is_code_points_on_utf8.
 Print Assumptions version_table_matches_spec.
 Print Assumptions version_table_complete.
 Print Assumptions lenient_versions_are_all_registered.
